@@ -297,6 +297,7 @@ func suiteBuf(c *Ctx) {
 		big := r.Range(0, 3) // 0 small, 1 medium, 2 large, 3 mixed
 		drain := r.Range(10, 60)
 		nops := r.Range(5, 45)
+		fillNext := false // the next write fills the ring exactly
 		var ctr byte
 		data := func(ln int) []byte {
 			b := make([]byte, ln)
@@ -312,6 +313,12 @@ func suiteBuf(c *Ctx) {
 		size := func(t bufTarget) int {
 			bu, cp, _ := t.obs()
 			free := cp - bu
+			if fillNext {
+				fillNext = false
+				if free > 0 {
+					return free
+				}
+			}
 			if kind == 2 {
 				// distances to the static/dynamic threshold as well
 				if r.Chance(30) {
@@ -368,7 +375,17 @@ func suiteBuf(c *Ctx) {
 			case r.Chance(drain):
 				// draining side
 				amt := 0
+				// when the contents wrap around the end of the array: discard exactly up to the array end
+				// (what a partial writev of the first chunk does), and the next operation fills the ring
+				headLen := -1
+				if pk := sx.Items(t.peek(-1)); len(pk) == 2 {
+					headLen = len(sx.Bytes(pk[0]))
+				}
 				switch {
+				case headLen > 0 && r.Chance(35):
+					amt = headLen
+					fillNext = true
+					seen["discard-to-array-end"] = true
 				case r.Chance(15):
 					amt = bu
 				case r.Chance(10):
